@@ -575,3 +575,52 @@ M("C13", "gzip-swallows-first-member-error", "response.py",
   "                return bytes(ret)", rule="C13-R4")
 M("C13", "chunk-loop-stops-on-empty-chunk", "response.py",
   "                chunk = self._handle_chunk(amt)\n                decoded = self._decode(", "                chunk = self._handle_chunk(amt)\n                if not chunk:\n                    break\n                decoded = self._decode(", rule="C13-R2")
+
+# --------------------------------------------------------------------------- C14
+M("C14", "backslash-in-authority", "util/url.py",
+  '    r"(?://([^\\\\/?#]*))?"', '    r"(?://([^/?#]*))?"', rule="C14-R2")
+M("C14", "userinfo-first-at", "util/url.py",
+  '            auth, _, host_port = authority.rpartition("@")', '            auth, _, host_port = authority.partition("@")', rule="C14-R3")
+M("C14", "ipv6-not-lowered", "util/url.py",
+  "                else:\n                    return host.lower()\n            elif not _IPV4_RE.match(host):", "                else:\n                    return host\n            elif not _IPV4_RE.match(host):", rule="C14-R4")
+M("C14", "port-range-test-removed", "util/url.py",
+  "            if not (0 <= port_int <= 65535):\n                raise LocationParseError(url)\n", "", rule="C14-R5")
+M("C14", "int-outside-funnel", "util/url.py",
+  "    if not path:\n        if query is not None or fragment is not None:", "    if port is not None:\n        port_int = int(port.strip())\n    if not path:\n        if query is not None or fragment is not None:", rule="C14-R1")
+M("C14", "funnel-misses-attributeerror", "util/url.py",
+  "    except (ValueError, AttributeError) as e:\n        raise LocationParseError(source_url) from e", "    except ValueError as e:\n        raise LocationParseError(source_url) from e", rule="C14-R1")
+M("C14", "redos-in-scheme-pattern", "util/url.py",
+  '_SCHEME_RE = re.compile(r"^(?:[a-zA-Z][a-zA-Z0-9+-]*:|/)")', '_SCHEME_RE = re.compile(r"^(?:(?:[a-zA-Z]+[a-zA-Z0-9+-]*)+:|/)")', rule="C14-R6")
+M("C14", "port-digits-unbounded", "util/url.py",
+  '_HOST_PORT_PAT = ("^(%s|%s|%s)(?::0*?(|0|[1-9][0-9]{0,4}))?$") % (', '_HOST_PORT_PAT = ("^(%s|%s|%s)(?::0*?(|0|[1-9][0-9]*))?$") % (', rule="C14-R5")
+M("C14", "uri-re-not-dotall", "util/url.py",
+  '    r"(?:#(.*))?$",\n    re.UNICODE | re.DOTALL,\n)', '    r"(?:#(.*))?$",\n    re.UNICODE,\n)', rule="C14-R2")
+M("C14", "dot-segment-quadratic", "util/url.py",
+  "        if segment != \"..\":\n            output.append(segment)", "        if segment != \"..\" and segment not in output[:0]:\n            output.insert(0, segment)\n            output.append(output.pop(0))", rule="C14-R7")
+M("C14", "idna-error-escapes", "util/url.py",
+  "        except idna.IDNAError:\n            raise LocationParseError(\n                f\"Name '{name}' is not a valid IDNA label\"\n            ) from None",
+  "        except idna.IDNAError:\n            raise RuntimeError(name) from None", rule="C14-R1")
+M("C14", "scheme-not-lowered", "util/url.py",
+  "        if scheme:\n            scheme = scheme.lower()\n\n        if authority:", "        if authority:", rule="C14-R4")
+
+# --------------------------------------------------------------------------- C15
+M("C15", "absolute-target-with-userinfo-again", "connectionpool.py",
+  "            url = to_str(parsed_url._replace(auth=None, fragment=None).url)", "            url = to_str(parsed_url.url)", rule="C15-R2")
+M("C15", "absolute-target-keeps-fragment", "connectionpool.py",
+  "            url = to_str(parsed_url._replace(auth=None, fragment=None).url)", "            url = to_str(parsed_url._replace(auth=None).url)", rule="C15-R2")
+M("C15", "request-uri-includes-fragment", "util/url.py",
+  "            uri += \"?\" + self.query\n\n        return uri", "            uri += \"?\" + self.query\n        if self.fragment:\n            uri += \"#\" + self.fragment\n\n        return uri", rule="C15-R2")
+M("C15", "dial-host-without-trailing-dot", "connection.py",
+  "                (self._dns_host, self.port),", "                (self.host, self.port),", rule="C15-R3")
+M("C15", "host-property-keeps-dot", "connection.py",
+  "        return self._dns_host.rstrip(\".\")", "        return self._dns_host", rule="C15-R3")
+M("C15", "sni-brackets-stripped-for-names", "connection.py",
+  "        if is_ipaddress(normalized):\n            server_hostname = normalized", "        server_hostname = normalized", rule="C15-R4")
+M("C15", "pool-selected-by-netloc-split", "poolmanager.py",
+  "        conn = self.connection_from_host(u.host, port=u.port, scheme=u.scheme)", "        conn = self.connection_from_host(url.split(\"//\")[-1].split(\"/\")[0].split(\":\")[0], port=u.port, scheme=u.scheme)", rule="C15-R1")
+M("C15", "default-port-always-80", "poolmanager.py",
+  "            port = port_by_scheme.get(request_context[\"scheme\"].lower(), 80)", "            port = 80", rule="C15-R1")
+M("C15", "pool-host-keeps-brackets", "connectionpool.py",
+  "        self.host = _normalize_host(host, scheme=self.scheme)", "        self.host = normalize_host(host, scheme=self.scheme)", rule="C15-R5")
+M("C15", "key-host-case-sensitive", "poolmanager.py",
+  "    context[\"host\"] = context[\"host\"].lower()\n", "", rule="C15-R6")
